@@ -342,7 +342,7 @@ def check_pair(res, kind, c1, c2, rep, want_state=True):
                 res.violation(f"model:{k}:not-renEq", "the model of the repaired matcher reports isomorphic but no renaming makes the wires equal "
                               "(contradicts Properties/C15.iso_sound)", input=inp, model=rep.get("_raw", "")[:200])
         if rep.get("directl") != impl["direct"]:
-            # the operation-list form of `direct` (the one the theorems are about) must agree with the implementation too
+            # the operation-list form of `direct` (proved equal to the walk model for well-formed circuits) must agree with the implementation too
             res.exact_break("compare:direct (operation-list form)", input=inp, impl=impl["direct"], model=rep.get("directl"))
         res.traces_validated += 1
     same_regs = c1[:3] == c2[:3]
